@@ -213,7 +213,7 @@ for _dp in (1, 2, 3, 4):
         _qa = ["q%d" % i for i in range(_dq)]
         _d = max(_dp, _dq)
         _params = ", ".join(a + ": str" for a in _pa + _qa)
-        if _d <= 3:
+        if _d <= 3 and not (_dp == 3 and _dq == 3):  # 3x3 with segments of length 1..2 does not finish in 2400 s (1412 paths): length 1 only
             gen(_RT.format(dp=_dp, dq=_dq, sfx="", params=_params, lens="1..2",
                            pre=" and ".join("_seg_ok(%s)" % a for a in _pa + _qa), pa=", ".join(_pa), qa=", ".join(_qa),
                            to=300 if _d <= 2 else 2400, tiers=("quick", "thorough") if _d <= 2 else ("thorough",)), globals())
